@@ -18,7 +18,7 @@ MGR_LABEL = {'Unchoke': ['C12', 'C13', 'C10'], 'Choke': ['C12'], 'Have': ['C12',
              'Kill': ['C12', 'C20', 'C08'], 'Bitfield': ['C14', 'C13'], 'Request': ['C09'], 'Init': ['C11', 'C08'], 'Interested': ['C14'],
              'NotInterested': ['C14', 'C13'], 'SyncStats': ['C14']}
 TRIG_LABEL = {'Piece': ['C01', 'C10'], 'Request': ['C09'], 'Handshake': ['C08'], 'BroadHave': ['C11'], 'Unchoke': ['C11', 'C12', 'C10'],
-              'TickKA': ['C20'], 'BroadState': ['C14', 'C09'], 'Have': ['C12', 'C10'], 'Bitfield': ['C14'], 'Start': ['C08'],
+              'TickKA': ['C20'], 'BroadReleased': ['C12', 'C02'], 'BroadState': ['C14', 'C09'], 'Have': ['C12', 'C10'], 'Bitfield': ['C14'], 'Start': ['C08'],
               'KeepAlive': ['C20'], 'Choke': ['C12'], 'Interested': ['C14'], 'NotInterested': ['C14'], 'Cancel': ['C06'], 'TickStats': ['C14']}
 
 
@@ -92,7 +92,7 @@ def oracles(scn, raw):
             closed.setdefault(e['peer'], e['vt'])
         elif src == 'h':
             hooked[e['peer']].extend(e['sent'])
-            if ev in ('Call', 'End', 'Exit') and e['trig']['k'] not in ('Start', 'TickKA', 'TickStats', 'BroadHave', 'BroadState'):
+            if ev in ('Call', 'End', 'Exit') and e['trig']['k'] not in ('Start', 'TickKA', 'TickStats', 'BroadHave', 'BroadState', 'BroadPieceReleased', 'Idle'):
                 if not (ev == 'End' and e.get('called')) and not (ev == 'Exit' and e.get('called')):
                     trigs[e['peer']].append(e['trig'])
             if ev == 'Exit':
@@ -396,10 +396,23 @@ def design_live(pid, tier):
                 % (('"a", "b"', 3, 'N1x3', 'HasA', '"b"') if big else ('"a", "b"', 2, 'N1x2', 'HasQ', '"b"')))
     res = run_tlc('MC_SwarmLive', cfg, pid, workers=8 if tier == 'quick' else 14, timeout=5400, tag='live', xmx='16g')
     viol = None
+    import re
     if res['violation']:
-        import re
         m = re.search(r'(Invariant|[Pp]roperty) (\w+) (is|was) violated', res['stdout'])
         viol = 'MC_SwarmLive.tla (honest environment, fairness) violates %s' % (m.group(2) if m else 'a property')
+        return res, viol
+    # the same swarm with the end game switched off (EndGame = 1: the situation of a torrent with ten or more pieces
+    # missing): a reserved piece is never handed to a second peer, so progress depends on released pieces being re-offered
+    cfg2 = os.path.join(outdir(pid), 'live_noendgame.cfg')
+    with open(cfg2, 'w') as f:
+        f.write(open(cfg).read().replace('EndGame = 2', 'EndGame = 1'))
+    res2 = run_tlc('MC_SwarmLive', cfg2, pid, workers=8 if tier == 'quick' else 14, timeout=5400, tag='live2', xmx='16g')
+    if res2['violation']:
+        m = re.search(r'(Invariant|[Pp]roperty) (\w+) (is|was) violated', res2['stdout'])
+        viol = 'MC_SwarmLive.tla (honest environment, fairness, no end game) violates %s' % (m.group(2) if m else 'a property')
+    res['distinct'] = res.get('distinct', 0) + res2.get('distinct', 0)
+    res['generated'] = res.get('generated', 0) + res2.get('generated', 0)
+    res['stdout'] += res2['stdout'][-3000:]
     return res, viol
 
 
@@ -558,7 +571,7 @@ def check_c01(tier, replay=None):
 
 def check_c02(tier, replay=None):
     m = mult(tier)
-    plan = [(G.honest, 32 * m, {}), (G.handover, 10 * m, {}), (G.dupaddr, 8 * m, {}), (G.endgame_cancel, 8 * m, {}), (G.nothing_to_assign, 8 * m, {})]
+    plan = [(G.honest, 32 * m, {}), (G.handover, 10 * m, {}), (G.dupaddr, 8 * m, {}), (G.endgame_cancel, 8 * m, {}), (G.nothing_to_assign, 8 * m, {}), (G.reannounce, 6 * m, {}), (G.orphaned, 6 * m, {})]
     return swarm_check('C02', tier, plan, need_actions=(), kinds= ['Unchoke', 'Bitfield', 'Piece', 'Have'],
                        design_over=dict(Fuel=3, BFMenu='{{1, 2}}') if tier == 'quick' else dict(Fuel=4, MaxQ=2),
                        extra_oracles=[oracle_c02], vacuity={'completions': 40}, replay=replay, live=True,
